@@ -67,12 +67,12 @@ def decorated(sh, salt, sid):
     n = len(model.leaves(sh))
     edges = ['HD', 'NK', 'SB', 'OA']
     labels = ['S', 'NP', 'VP', 'PP', 'AP']
-    words = ['a', 'b,', '&c', '<d>', 'e"', "f'", 'gä', 'h#', '#']
+    words = ['a', 'b,', '&c', '<d>', 'e"', "f'", 'gä', 'h#', '#', 'Donaudampfschifffahrtsgesellschaft']
     root = model.decorate(sh, lambda p, s: labels[(sum(p) + len(p) + salt) % len(labels)],
                           lambda p, s: edges[(sum(p) + salt) % len(edges)])
     toks = model.mk_tokens(n, words=[words[(salt + i) % len(words)] + str(i) for i in range(n)],
                            pos=['T%d' % ((i + salt) % 3) for i in range(n)],
-                           lemma=['l%d' % i for i in range(n)], morph=['m%d' % i for i in range(n)],
+                           lemma=['l%d' % i for i in range(n)], morph=['m%d' % i if (i + salt) % 4 else 'Nom.Sg.Masc.3.Pres' for i in range(n)],
                            edge=[edges[(i + salt + 1) % len(edges)] for i in range(n)])
     return model.MT(sid, toks, root)
 
@@ -315,6 +315,8 @@ def dev_expect(exp, dev, dest):
         root, toks = m.root, [dict(t) for t in m.toks]
         if kind == 'continuous':
             sid = k + 1
+        if kind == 'firstid':
+            sid = dev['first'] + k
         if kind == 'gf':
             sep = dev.get('sep', '-')
 
@@ -551,6 +553,10 @@ def run_chunk(chunk):
             for src in ('export3', 'tigerxml'):
                 for dest in ('export3', 'tigerxml'):
                     devs.append((P[:3], [src, dest], {'src_opts': ['continuous'], 'expect': 'continuous'}))
+            for src in ('brackets', 'discobrackets'):
+                for dest in ('export3', 'tigerxml'):
+                    for first in (0, 1, 7):
+                        devs.append((Pc[:3], [src, dest], {'src_opts': ['brackets_firstid:%d' % first], 'expect': 'firstid', 'first': first}))
             for dest in ('export3', 'brackets', 'discobrackets'):
                 devs.append((Pc[:3], ['tigerxml', dest], {'dest_opts': ['gf'], 'expect': 'gf'}))
                 devs.append((Pc[:3], ['export4', dest], {'dest_opts': ['gf', 'gf_separator:#'], 'expect': 'gf', 'sep': '#'}))
